@@ -1,6 +1,8 @@
 package main
 
 import (
+	"golang.org/x/tools/go/ssa"
+	"go/types"
 	"fmt"
 	"go/token"
 	"sort"
@@ -251,6 +253,66 @@ func ruleF5(c *Ctx) {
 	c.expectMin("F5", 4)
 }
 
+
+// F7: one store per header. The typed-value accessors of a holder type (PHdrVals.GetCLen, GetExpires, GetFrom, GetTo,
+// ...: methods without parameters that return the address of a field of the receiver) are injective: no two of them
+// hand out the same field. If Expires and Content-Length shared one store, an Expires header would become the
+// declared body length (and the other way round).
+func ruleF7(c *Ctx) {
+	type acc struct {
+		key, path string
+		pos       token.Pos
+	}
+	byType := map[string][]acc{}
+	var keys []string
+	for k := range c.Prog.SFuncs {
+		keys = append(keys, k)
+	}
+	sort.Strings(keys)
+	n := 0
+	for _, k := range keys {
+		fn := c.Prog.SFuncs[k]
+		if fn == nil || fn.Signature.Recv() == nil || fn.Signature.Params().Len() != 0 || fn.Signature.Results().Len() != 1 || len(fn.Blocks) != 1 {
+			continue
+		}
+		if _, isPtr := fn.Signature.Results().At(0).Type().Underlying().(*types.Pointer); !isPtr {
+			continue
+		}
+		ret, ok := fn.Blocks[0].Instrs[len(fn.Blocks[0].Instrs)-1].(*ssa.Return)
+		if !ok || len(ret.Results) != 1 {
+			continue
+		}
+		fa, ok := ret.Results[0].(*ssa.FieldAddr)
+		if !ok || len(fn.Params) == 0 || !derivesFrom(fa, fn.Params[0]) {
+			continue
+		}
+		pth := addrPath(fa)
+		if i := strings.Index(pth, "."); i >= 0 {
+			pth = pth[i+1:]
+		}
+		tn := strings.TrimPrefix(fn.Signature.Recv().Type().String(), "*")
+		byType[tn] = append(byType[tn], acc{k, pth, fn.Pos()})
+	}
+	var tns []string
+	for tn := range byType {
+		tns = append(tns, tn)
+	}
+	sort.Strings(tns)
+	for _, tn := range tns {
+		as := byType[tn]
+		seen := map[string]string{}
+		for _, a := range as {
+			n++
+			other, dup := seen[a.path]
+			c.check(!dup, "F7", a.key+":own-field", a.pos, fmt.Sprintf("accessor %s returns &recv.%s, which no other accessor of the type returns (also returned by %s)", a.key, a.path, other))
+			if !dup {
+				seen[a.path] = a.key
+			}
+		}
+	}
+	c.check(n >= 8, "F7", "instances", token.NoPos, fmt.Sprintf("%d field-address accessors (frozen minimum 8)", n))
+}
+
 func init() {
 	register(&PropDef{
 		ID: "C06",
@@ -260,6 +322,7 @@ func init() {
 			{"F3", "Content-Length is bounded (9 digits, 2^24) before it is used as an offset, and its body object is parsed only by ParseCLenVal", ruleF3},
 			{"F6", "the per-state path table of ParseSIPMsg (for every state every path to a return: verdict set, returned offset, state left in the object, field actions; variables abstracted, conditions merged) equals the reviewed reference table committed under sa/ref/", func(c *Ctx) { pathRefRule(c, "F6", "ParseSIPMsg", "SIPMsg") }},
 			{"F5", "the Content-Length header is always handed to its typed parser (shared with C01-R3b): the dispatch state of ParseHdrLine is never left undispatched and the dispatcher reports a non-zero verdict only after storing a typed state, so a cut after the colon cannot turn Content-Length into a generic header and lose the body length", ruleF5},
+			{"F7", "one store per header: the typed-value accessors (parameterless methods returning the address of a receiver field: PHdrVals.GetCLen, GetExpires, GetFrom, GetTo, ...) are injective per holder type, so Content-Length is never stored in, or read from, the object of another header", ruleF7},
 			{"F4", "pipelining: the message start offset is written once, in state Init, from the offs parameter, never on resume; views Buf/RawMsg end at the returned offset; PSIPMsg.Reset composition (C12-Z3)", ruleF4},
 		},
 		Assumptions: []string{"ParseHeaders returns the offset after the blank line (C07)"},
